@@ -1527,6 +1527,9 @@ class SelectorWorld:
                 gap, _ = spectrum_gap(M, k, symmetric=True)
             return gap < lim
         except Exception:  # noqa: BLE001
+            # not judged; counted so that the evidence shows how often the guard gave up for a
+            # reason other than the spectrum (should stay 0 on a tree that keeps its state)
+            self.count("degenerate_guard_gave_up")
             return True
 
     def _degenerate(self, t, p, fam, axis, Xp=None, yp=None):
@@ -1555,6 +1558,9 @@ class SelectorWorld:
                 gap, top = spectrum_gap(M, k, symmetric=True)
             return gap < lim
         except Exception:  # noqa: BLE001
+            # not judged; counted so that the evidence shows how often the guard gave up for a
+            # reason other than the spectrum (should stay 0 on a tree that keeps its state)
+            self.count("degenerate_guard_gave_up")
             return True
 
 
